@@ -33,7 +33,13 @@ def write(here, check, tier, vseed, agg, wall, n_viol, hashseeds, seams_seen, kn
             "codelimit.common.utils.sh -> SimGit scenarios" if seams_seen.get("git") else "git seam unavailable",
             "Scanner.Live -> SimLive (no refresh thread)" if seams_seen.get("live") else "Live seam unavailable",
             "process boundary -> SimProcess reset of Configuration / logging handlers / cwd / env"]
-    zero_probes = []
+    plan_cases = None
+    if check == "C10":
+        from .props import c10
+        plan_cases = len(c10.plan(tier))
+    elif check == "C03":
+        from .props import c03
+        plan_cases = 2 * len(c03.sweep_plan(tier))
     cov = {
         "evaluations": int(done_runs + agg.subcases),
         "runs": int(done_runs),
@@ -42,6 +48,10 @@ def write(here, check, tier, vseed, agg, wall, n_viol, hashseeds, seams_seen, kn
         "rule": RULE[check],
         "samples": agg.samples[:3],
         "exhaustive": False,
+        "enumerated_plan": None if plan_cases is None else {
+            "cases_in_plan": plan_cases, "cases_done": int(min(done_runs, plan_cases)),
+            "complete": bool(done_runs >= plan_cases),
+            "note": "the enumerated part of this check's case list (sweep slices); thorough tier = every byte / tick / JSON path of the listed worlds and texts, quick tier = the stated strata"},
         "seeds": {"verif_seed": vseed, "first_run_seed": vseed * (1 << 24), "count": int(done_runs)},
         "hashseeds": hashseeds[:64],
         "n_hashseeds": len(hashseeds),
